@@ -9,6 +9,7 @@ import (
 	"fmt"
 
 	"go.sia.tech/core/types"
+	rhp4 "go.sia.tech/coreutils/rhp/v4"
 )
 
 type failure struct{ kind, detail string }
@@ -216,7 +217,32 @@ func (h *harness) judge(o *outcome) []failure {
 		}
 	}
 
-	// mined: the contract exists with exactly the agreed funding
+	// bookkeeping: the new contract can be renewed later
+	lc := liveContract{ID: id, Revision: fc, Height: w.cmH.Tip().Height}
+	if s.Kind == "form" {
+		w.contracts = append(w.contracts, lc)
+	} else {
+		w.contracts[len(w.contracts)-1] = lc
+	}
+	if h.deferConfirm {
+		// the caller wants the set to stay in the pool for now; the mined part of
+		// the judgement runs when it confirms
+		h.pending = func() []failure { return h.judgeMined(o, bc, id, fc, renewal) }
+		return fs
+	}
+	return append(fs, h.judgeMined(o, bc, id, fc, renewal)...)
+}
+
+// judgeMined mines the host's pool and checks that the contract exists on
+// chain with exactly the agreed funding.
+func (h *harness) judgeMined(o *outcome, bc rhp4.TransactionSet, id types.FileContractID, fc types.V2FileContract, renewal *types.V2FileContractRenewal) []failure {
+	w := h.w
+	s := o.Script
+	rn := w.renterNode(s)
+	var fs []failure
+	fail := func(kind, f string, a ...any) {
+		fs = append(fs, failure{kind, fmt.Sprintf("%s [%s]: ", s.Kind, s.String()) + fmt.Sprintf(f, a...)})
+	}
 	rfund, hfund, _, _, tok := w.hostTerms(o)
 	last := bc.Transactions[len(bc.Transactions)-1]
 	_, applied := w.confirm()
@@ -269,14 +295,6 @@ func (h *harness) judge(o *outcome) []failure {
 		if rin.Cmp(rout) < 0 || !rin.Sub(rout).Equals(rfund) {
 			fail("mined-funding-differs", "the renter put in %v - %v, agreed renter funding is %v", rin, rout, rfund)
 		}
-	}
-
-	// bookkeeping: the new contract can be renewed later
-	lc := liveContract{ID: id, Revision: fc, Height: w.cmH.Tip().Height}
-	if s.Kind == "form" {
-		w.contracts = append(w.contracts, lc)
-	} else {
-		w.contracts[len(w.contracts)-1] = lc
 	}
 	return fs
 }
